@@ -227,3 +227,54 @@ def q_rebind(tier='quick'):
     sc = Scenario('Q-rebind', {'a.xsd': sch_a, 'b.xsd': sch_b}, 'a.xsd', [order])
     return sc, Info(schemas={'a.xsd': sch_a, 'b.xsd': sch_b}, simple=[], subjects=[('a.xsd', top)],
                     expect=[('Top', 'inner', NS1), ('Holder', 'inner', NS2)], probes={NS1: ('Top', 'p1'), NS2: ('Holder', 'p2')})
+
+
+# ------------------------------------------------------------------------------------------------ C10: namespaces
+
+ADV_URIS = ['http://example.com/v1/types', 'http://example.com/v2/types', 'http://example.com/typ', 'urn:example:types',
+            'http://example.com/types/', 'http://example.com/my-types', 'http://example.com/t.y.p.e', 'http://example.com/v1/messages']
+
+
+def n_namespaces(tier='quick'):
+    """namespaces met in four ways: target of the start file, root xmlns of the start file (referenced only), target of an
+    imported file, nested xmlns on a component of the imported file. The four URIs are symbolic over adversarial URIs."""
+    dom = ADV_URIS if tier == 'thorough' else ADV_URIS[:5]
+    ua = Selector('uri_target_a', dom)
+    ur = Selector('uri_ref_a', dom)
+    ub = Selector('uri_target_b', dom)
+    un = Selector('uri_nested_b', dom[:4])
+    tb = CT('InB', Seq([El('q', 'xs:string')]))
+    sch_b = Schema(ub, [tb], prefixes={'bb': ub, 'nn': un})
+    ta = CT('InA', Seq([El('p', 'xs:string'), El('other', 'bb:InB')]))
+    sch_a = Schema(ua, [ta], prefixes={'aa': ua, 'rr': ur, 'bb': ub}, imports=[(ub, 'b.xsd')])
+    sc = Scenario('N-namespaces', {'a.xsd': sch_a, 'b.xsd': sch_b}, 'a.xsd', [ua, ur, ub, un])
+    return sc, Info(schemas={'a.xsd': sch_a, 'b.xsd': sch_b}, ua=ua, ub=ub, ur=ur, un=un, simple=[], subjects=[])
+
+
+def n_within(tier='quick'):
+    """one document: the target namespace has NO xmlns declaration (met only through targetNamespace), two other
+    namespaces are referenced through root xmlns declarations"""
+    dom = ADV_URIS if tier == 'thorough' else ADV_URIS[:5]
+    ua = Selector('uri_target', dom)
+    ur = Selector('uri_ref1', dom)
+    u2 = Selector('uri_ref2', dom[:4])
+    ta = CT('InA', Seq([El('p', 'xs:string')]))
+    sch_a = Schema(ua, [ta], prefixes={'rr': ur, 'ss': u2})
+    sc = Scenario('N-within', {'a.xsd': sch_a}, 'a.xsd', [ua, ur, u2])
+    return sc, Info(schemas={'a.xsd': sch_a}, ua=ua, ub=ua, ur=ur, simple=[], subjects=[], single=True)
+
+
+# ------------------------------------------------------------------------------------------------ C03: annotations
+
+def s_xref(tier='quick'):
+    """element ref= to a global element of ANOTHER namespace (imported file); the two namespace URIs are symbolic over
+    adversarial URIs; the start file's target namespace has no xmlns declaration of its own"""
+    dom = ADV_URIS[:4] if tier == 'quick' else ADV_URIS
+    ua = Selector('uri_a', dom)
+    ub = Selector('uri_b', dom)
+    remote = GEl('Remote', content=Seq([El('r', 'xs:string')]))
+    sch_b = Schema(ub, [remote], prefixes={'m': ub})
+    person = CT('Person', Seq([El(ref='m:Remote'), El('name', 'xs:string')]), attrs=[Attr('id', 'xs:string', 'required')])
+    sch_a = Schema(ua, [person], prefixes={'m': ub}, imports=[(ub, 'b.xsd')])
+    sc = Scenario('S-xref', {'a.xsd': sch_a, 'b.xsd': sch_b}, 'a.xsd', [ua, ub])
+    return sc, Info(schemas={'a.xsd': sch_a, 'b.xsd': sch_b}, subjects=[('a.xsd', person)], anon=[('b.xsd', remote)], simple=[], bases={}, distinct=(ua, ub))
